@@ -609,6 +609,9 @@ fn run_and_judge(prop: &str, c08: bool, wk: &Worker, cn: &'static Coin, world: &
     }
     let mut spec_u = RunSpec::new(cn.name, "unspentcsvdump").range(start, None);
     spec_u.env.push(("VERIF_RUN_TIMEOUT".into(), "120".into()));
+    // verbosity by case (none of the big worlds: a trace line per block and output would only cost time)
+    let verbosity = if embed { h8(label.as_bytes())[1] % 4 } else { 0 };
+    spec_u.verbosity = verbosity;
     // every fourth case starts from a dump folder holding the (longer) *.csv.tmp leftovers of an aborted earlier dump
     let dirty = h8(label.as_bytes())[0] % 4 == 0;
     let run = |spec: &RunSpec| {
@@ -652,6 +655,7 @@ fn run_and_judge(prop: &str, c08: bool, wk: &Worker, cn: &'static Coin, world: &
     // C08: balances against the model and against the aggregation of the observed unspent dump
     let mut spec_b = RunSpec::new(cn.name, "balances").range(start, None);
     spec_b.env.push(("VERIF_RUN_TIMEOUT".into(), "120".into()));
+    spec_b.verbosity = verbosity;
     let rb = run(&spec_b);
     acc.transitions += 1;
     if let Some((sig, detail)) = check_balances(&rb, cn, &range, s, e).into_iter().next() {
